@@ -113,16 +113,20 @@ def search(ctx, failing_ops):
 
 
 MANIFEST = {
-    "text": ("Kernel-checked Lean theorems on the block coder (Model.SeqHuff, the model of jchuff.c encode_one_block and of the T.81 F.2.2 "
-             "decoding procedure used by the independent decoder): run-length coding of the 63 AC coefficients with ZRL and EOB is "
-             "inverted exactly for every block whose symbols the tables contain, the DC difference is recovered, hence a whole block "
-             "round-trips for any valid Huffman tables (default or optimised - the symbols do not depend on the tables); successive "
-             "approximation reconstructs every coefficient from its first scan and its refinement bits in order.  The independent T.81 "
-             "decoder is tied to libjpeg-turbo's on every stream the harness makes the real encoder write, and the property itself is "
-             "checked on the real code against the source coefficients."),
+    "text": ("Kernel-checked Lean theorems on the entropy coders.  Sequential (Model.SeqHuff = jchuff.c encode_one_block / T.81 F.2.2): "
+             "run-length coding of the 63 AC coefficients with ZRL and EOB is inverted exactly, the DC difference is recovered, a whole "
+             "block round-trips for any valid tables.  Progressive (Model.ProgAC = jcphuff.c encode_mcu_AC_first / encode_mcu_AC_refine / "
+             "emit_eobrun, and the procedures of T.81 G.2 the independent reader runs): for every sequence of blocks of a restart "
+             "interval the first-pass event stream with EOB runs (incl. the forced flush at 0x7FFF) and the refinement event stream "
+             "(ZRL folded into EOB, correction bits buffered in BE/BR and emitted after ZRL / symbol / EOBn, flushes at 0x7FFF and BE>937) "
+             "are inverted exactly by the reader's block procedures, for any prefix code containing the symbols used and whatever "
+             "follows; the scans chain (the value left by level Al+1 is the history of level Al) and level 0 is exact.  The very "
+             "functions the theorems are about produce the model's bytes, which are compared byte for byte with libjpeg-turbo's files "
+             "(C04 progfile / seqfile), and decode every stream the real encoder writes (t81)."),
     "design_ref": "DESIGN.md 6.3",
-    "note": ("Partial: the progressive EOBRUN/correction-bit state machines and the QM coder are modelled and tied (independent reader = "
-             "libjpeg-turbo on every emitted stream) but not proved. Trusted: Lean kernel; axioms propext, Quot.sound, Classical.choice; "
-             "hand-written models tied by correspondence."),
-    "technique": "Lean 4 proof (induction over the coefficient list, prefix-code lemma from C19) + independent-decoder correspondence + real-code oracle",
+    "note": ("Partial: the DC scans of progressive mode use the sequential difference theorem; the composition of per-interval theorems "
+             "into a whole-scan / whole-file statement (restart markers, byte stuffing: C04 theorems; MCU order, dummy blocks: modelled and "
+             "tied) is not stated as one theorem; the QM coder is modelled and tied but not proved. Trusted: Lean kernel; axioms "
+             "propext, Quot.sound, Classical.choice; hand-written models tied by correspondence."),
+    "technique": "Lean 4 proof (induction over coefficient lists and block sequences, prefix-code lemma from C19) + byte-exact and independent-decoder correspondence + real-code oracle",
 }
